@@ -218,6 +218,7 @@ def execute(cells: Any) -> Dict[str, Any]:
     same process, directory and file name (a history: the file is rewritten)."""
     if isinstance(cells, dict):
         cells = [cells]
+    E1._ORDER[0] = 0
     tmp = tempfile.mkdtemp(prefix="verif-e2-")
     out: Dict[str, Any] = {"counters": {}, "violations": [], "results": {}}
     try:
@@ -414,6 +415,8 @@ def execute_cell(cell: Dict[str, Any], tmp: str) -> Dict[str, Any]:
                      {**ctx, "want": want[wi], "got": dig, "got_summary": E1.summary(snap)})
                 continue
             if route in OPT_ROUTES:
+                if custom:
+                    E1.touch_elements(res)
                 wq = st["renderers"][cell["rend"]] if custom else None
                 ok = res.allow_properties == cell["ap"]
                 if wq is not None:
